@@ -137,7 +137,41 @@ def transformers(I, rng):
     return out
 
 
+# witnesses of the known findings and shapes that past seeded changes needed (run first, with every transformer)
+CORPUS = ["a OR b c", "a(b)", ">1 AND a~2AND <5 3", "a AND b NOT c", "a OR b NOT c", "a AND b -c", "a OR b +c",
+          "> 10", "price:>= 10", "(> 10)", "x AND > 10", "date:(<=2021 AND > 5)", "< 10", "(< \"a b\")",
+          "a OR b AND c", "f:(a b) c", "NOT a b", "a^2 b~ c", "-a^2", "T12:30 x", "f:T12 30"]
+
+
+def directed_query(rng):
+    w = lambda: rng.choice(["a", "b", "c", "x1", "\"p q\"", "f:a", "10", "(a b)", "b~2", "c^3"])
+    pre = lambda: rng.choice(["", "", "NOT ", "-", "+", "NOT  "])
+    opn = lambda: rng.choice([" AND ", " OR ", " ", "  "])
+    rel = lambda: rng.choice([">", ">=", "<", "<=", "> ", ">=  ", "< ", "<= "]) + rng.choice(["10", "a", "\"x y\""])
+    parts = []
+    for i in range(rng.choice([2, 3, 4, 5])):
+        k = rng.random()
+        x = (pre() + w()) if k < 0.6 else rel() if k < 0.85 else "(" + pre() + w() + opn() + rel() + ")"
+        parts.append(x)
+    q = parts[0]
+    for x in parts[1:]:
+        q += opn() + x
+    if rng.random() < 0.3:
+        q = rng.choice(["f:(", "("]) + q + ")"
+    return q
+
+
 PREC = {"UnknownOperation": 0, "BoolOperation": 0, "OrOperation": 1, "AndOperation": 2}
+
+
+def ends_with_separator(text):
+    """the text ends with a blank that really is a separator (not the escaped blank of a term such as `foo\\ `)"""
+    if not text or not text[-1].isspace():
+        return False
+    k, i = 0, len(text) - 2
+    while i >= 0 and text[i] == "\\":
+        k, i = k + 1, i - 1
+    return k % 2 == 0
 
 
 def repair(node, kinds):
@@ -160,12 +194,17 @@ def repair(node, kinds):
         if "KF7" in kinds and node.op:
             for c in node.children[:-1]:
                 text = c.__str__(head_tail=True)
-                if not text or not text[-1].isspace():
+                if not ends_with_separator(text):
                     c.tail = c.tail + " "
             for c in node.children[1:]:
                 text = c.__str__(head_tail=True)
                 if not text or not text[0].isspace():
                     c.head = " " + c.head
+        if "KF12" in kinds and isinstance(node, T.AndOperation) and node.children:
+            last = node.children[-1]
+            text = last.__str__(head_tail=True)
+            if not ends_with_separator(text):
+                last.tail = last.tail + " "
     known._glue_repair_one(node, kinds)
 
 
@@ -174,11 +213,25 @@ def run(ctx):
     rng = ctx.rng
     TR = transformers(I, rng)
     reqs, exp = [], []
+    items = []
+    for q in CORPUS:
+        r0, t0 = parsing.impl_parse(q)
+        if t0 is not None:
+            items.append((q, r0["ok"], TR))
     for i in range(ctx.budget(250, 5000)):
-        q, d = trees.parsed_tree(ctx, rng, max_depth=rng.choice([2, 3, 4]))
+        if rng.random() < 0.15:
+            # directed: operands that start with a prefix operator / NOT after explicit operations, open ranges at the
+            # end of a group or of the query, with blanks after the comparison sign
+            q = directed_query(rng)
+            r0, t0 = parsing.impl_parse(q)
+            d = r0["ok"] if t0 is not None else None
+        else:
+            q, d = trees.parsed_tree(ctx, rng, max_depth=rng.choice([2, 3, 4]))
         if d is None:
             continue
-        for name, fn in rng.sample(TR, 4):
+        items.append((q, d, rng.sample(TR, 4)))
+    for q, d, trs in items:
+        for name, fn in trs:
             o = common.load_tree(d)
             try:
                 res = fn(o)
@@ -202,9 +255,17 @@ def run(ctx):
                 why = same_meaning(rng, td, r["ok"], readings)
             if why is not None:
                 explained = []
-                # KF6 / KF7 are defects of the resolver only
-                candidates = (("KF6",), ("KF7",), ("KF6", "KF7")) if name.startswith("resolve") else ()
-                for kinds in candidates + (("KF8",), ("KF9",)):
+                # KF6 / KF7 are defects of the resolver only, KF12 of open-range merging only; several findings may
+                # be needed at once (e.g. KF7 in one place and KF8 in another): every combination is tried
+                base = ["KF8", "KF9"]
+                if name.startswith("resolve"):
+                    base += ["KF6", "KF7"]
+                if name == "openrange:merge=True":
+                    base += ["KF12"]
+                combos = [c for n in range(1, len(base) + 1) for c in itertools.combinations(base, n)]
+                for kinds in combos:
+                    if explained and len(kinds) > len(explained[0].split("+")):
+                        break          # only minimal explanations
                     fixed = common.load_tree(td)
                     repair(fixed, kinds)
                     r2, back2 = parsing.impl_parse(fixed.__str__(head_tail=True))
